@@ -93,6 +93,10 @@ def gen{k}(n: size, m: size, c: index, A: f32[n, m], y: f32[m + {c2}], out: f32[
         for j in seq(0, m):
             t += A[i, j] * y[j + c]
         out[i] = t
+    for i in seq(0, n):
+        t: f32
+        t = out[i]
+        out[i] = t * t
 '''
         elif t == 2:
             src = f'''
@@ -674,8 +678,8 @@ class Checker:
         for path, c, _ in stmts:
             if isinstance(c, C.AllocCursor):
                 decl_targets.append((["alloc", path], None, ["alloc"], c))
-        precs = ["f64", "f16", "i8", "i32", "f32"]
-        mems = [M.DRAM_STATIC, M.DRAM_STACK, DRAM]
+        precs = ["f64", "f16", "i8", "i32"]          # never the current one (all programs use f32)
+        mems = [M.DRAM_STATIC, M.DRAM_STACK]           # never the current one (DRAM)
         seen_ctrl = False
         for where, sym, ty, cur in decl_targets:
             numeric = ty[0] in ("tensor", "scalar", "alloc")
